@@ -57,7 +57,11 @@ class TypeAliasUnwrappingProvider(LocatedRequestDelegatingProvider):
         if not isinstance(norm, NormTypeAlias):
             raise CannotProvide
 
-        return norm.value[tuple(arg.source for arg in norm.args)] if norm.args else norm.value
+        if not norm.args:
+            return norm.value
+        # the value can mention the type params in another order (``type Swap[A, B] = dict[B, A]``)
+        param_to_arg = dict(zip(norm.origin.__type_params__, (arg.source for arg in norm.args)))
+        return norm.value[tuple(param_to_arg[param] for param in norm.value.__parameters__)]
 
 
 class ForwardRefEvaluatingProvider(LocatedRequestDelegatingProvider):
